@@ -1039,10 +1039,11 @@ CHECK_GROUPS = {
     "C01": ["TlsSess", "Suites", "TlsSess2", "Decrypt"],
     "C02": ["QuicDissect", "QuicSess", "Pn", "Varint", "Frames", "QuicDissect2", "QuicTls", "QuicSess2"],
     "C03": ["TlsSess", "QuicDissect", "Varint", "QuicDissect2", "TlsSess2", "QuicSess2"],
-    "C04": ["Demux", "QuicSess", "QuicDissect"],
+    "C04": ["Demux", "QuicSess", "QuicDissect", "Main2"],
     "C05": ["Reasm", "Reasm2"],
     "C06": ["Builders"],
     "C07": ["Ports", "Builders"],
+    "C08": ["Main2"],
     "C10": ["Ports", "Builders"],
     "C11": ["Checksum"],
     "C13": ["TlsSess", "TlsSess2"],
@@ -1050,7 +1051,7 @@ CHECK_GROUPS = {
     "C15": ["KeySched"],
     "C16": ["Pn", "QuicSess2"],
     "C17": ["Varint", "Frames"],
-    "C18": ["Demux"],
+    "C18": ["Demux", "Main2"],
 }
 BY_CHECK = {c: (group_modules(g), group_theorems(g)) for c, g in CHECK_GROUPS.items()}
 
@@ -1738,6 +1739,41 @@ def _qtls_cases(rng, call):
     return out
 
 
+def _main_cases(rng, call):
+    """main.py handle_packet (group Main2) with toy sessions (an object = its id and what it was fed), the key-log statements and
+    the collection fragment are straight-line: handle_packet is the one with a loop"""
+    import importlib
+    main = importlib.import_module("tlexport.main")
+    out = []
+
+    class S:
+        def __init__(self, ident, mod):
+            self.ident, self.mod, self.fed = ident, mod, 0
+
+        def matches_session(self, packet):
+            return packet.k % self.mod == 0
+
+        def handle_packet(self, packet):
+            self.fed += packet.k
+    saved = main.Session, list(main.server_ports)
+    main.Session = lambda packet, *a: S(100 + packet.k, 1)
+    try:
+        for _ in range(4):
+            ss = [S(i, rng.choice([2, 3, 5, 7])) for i in range(rng.randint(0, 4))]
+            before = "[" + ", ".join(f"({x.ident}, {x.mod}, {x.fed})" for x in ss) + "]"
+            pk = types.SimpleNamespace(k=rng.randint(1, 12), dport=rng.choice([443, 80, 5000]), sport=rng.choice([443, 80, 5000]))
+            main.server_ports[:] = rng.choice([[443], [443, 5000], []])
+            call(main.handle_packet, pk, None, b"", ss, {}, False, False)
+            after = "[" + ", ".join(f"({x.ident}, {x.mod}, {x.fed})" for x in ss) + "]"
+            out.append(("(fun k ss ports dp sp => (Main.handle_packet (σ := Nat × Nat × Nat) (π := Nat) (fun s q => q % s.2.1 == 0) "
+                        "(fun s q => (s.1, s.2.1, s.2.2 + q)) (fun q => (100 + q, 1, 0)) k ss ports dp sp).sessions)",
+                        f"{pk.k} {before} [{', '.join(str(x) for x in main.server_ports)}] {pk.dport} {pk.sport}", after))
+    finally:
+        main.Session = saved[0]
+        main.server_ports[:] = saved[1]
+    return out
+
+
 def _qs_cases(rng, call):
     """QuicSession.decrypt_packet / handle_frame / handle_quic_packet (group QuicSess2) on a session made without `__init__`, with toy
     decryptors, a toy `parse_frames` and toy `check_key_epoch` / `get_full_packet_number` / `set_largest_packet_number` — the same
@@ -2292,6 +2328,7 @@ def _cases(rng, n):
         out.extend(_dec_cases(rng, call))
         out.extend(_qtls_cases(rng, call))
         out.extend(_qs_cases(rng, call))
+        out.extend(_main_cases(rng, call))
         for _ in range(2):
             out.extend(_bld_cases(rng, call))
         # output builders
